@@ -313,3 +313,28 @@ def undo_compromise(self, node):
         return
     node.compromised_by.remove(self)
     self.reached_attack_steps.remove(node)
+
+
+# ----------------------------------------------------------------------------------------------- T17-T19
+# C05: entry points are one (asset, [step names]) tuple per asset; adding a step twice changes
+# nothing; removing the last step of an asset removes the tuple; removing what is absent changes nothing.
+def get_entry_point_tuple(self, asset):
+    return next((ep for ep in self.entry_points if ep[0] == asset), None)
+
+
+def add_entry_point(self, asset, attackstep_name):
+    entry_point_tuple = next((ep for ep in self.entry_points if ep[0] == asset), None)
+    if entry_point_tuple:
+        if attackstep_name not in entry_point_tuple[1]:
+            entry_point_tuple[1].append(attackstep_name)
+    else:
+        self.entry_points.append((asset, [attackstep_name]))
+
+
+def remove_entry_point(self, asset, attackstep_name):
+    entry_point_tuple = next((ep for ep in self.entry_points if ep[0] == asset), None)
+    if entry_point_tuple:
+        if attackstep_name in entry_point_tuple[1]:
+            entry_point_tuple[1].remove(attackstep_name)
+        if not entry_point_tuple[1]:
+            self.entry_points.remove(entry_point_tuple)
